@@ -13,7 +13,9 @@ from props import parsegen as G
 PARSE_CORPUS = ["a b c\n", "a | | b c\n", "a | | $(\n", "a 'unterminated\n", "a | | 'unterminated\n", "if a; then b; fi\n", "if a; fi 'x\n", "cat <<E\nbody\nE\n", "cat <<E |\nx\nE\nb\n",
                 "cat <<E | | b\nx\nE\n", "a $(b | | c) d\n", "a $(b) `c` $((1+2))\n", "a `b 'c` d\n", "x=$(cat <<E\nq\nE\n)\n", "a; b; c; d; e; f\n", "a &&\nb ||\nc\n", "( a; b ) | { c; }\n",
                 "a ) b 'c\n", "a ;; b \"c\n", "for i in 1 2 3; do a; done\n", "for 1x in a; do b; done 'q\n", "f() { a; }\n", "break() { a; } 'q\n", "a <<E <<F\n1\nE\n2\nF\n",
-                "a <<E ) 'q\nx\nE\n", "${x\n", "a ${x:-$(b | |)} c\n", "((1+2\n", "a # c\nb\n", "case x in a) b;; esac\n", "case x in a) b ;; ) 'q\n"]
+                "a <<E ) 'q\nx\nE\n", "${x\n",
+                # the lexer's error lies on a later line, at a smaller / equal / larger column than the token the parser rejects
+                "   ( ) 'aaa\n'\"zzz", "      a | | 'x\ny' \"q\n", "     a ) b \"c\nd\" 'e\n", "a ) 'b\n          c' \"d\n", " ;\n'q\n", "  a ;; \"b\n c\" ${x\n", "      ( ) $(\n'", "    ) `a\n'b`\n", "a ${x:-$(b | |)} c\n", "((1+2\n", "a # c\nb\n", "case x in a) b;; esac\n", "case x in a) b ;; ) 'q\n"]
 EVAL_CORPUS = [("1+2", {}), ("(1=2)+(x=5)", {}), ("x = 1 / 0", {}), ("y = (x <= y)", {"x": "abc"}), ("1 $ 2", {}), ("(1=2) $", {}), ("x++ + $ + y++", {}), ("a = b = c = 3", {}),
                ("1 +", {}), ("1 + (2", {}), ("x -= (7 / y)", {"y": "abc", "x": "010"}), ("0 && (x = 1)", {}), ("++0--", {}), ("(x=1) + (y=2) + (1=z) + (w=4)", {}), ("1 << -1", {}),
                ("x = 08", {}), ("$", {}), ("", {}), ("((((((1))))))", {}), ("x = y = 1/0", {})]
@@ -22,7 +24,7 @@ EVAL_CORPUS = [("1+2", {}), ("(1=2)+(x=5)", {}), ("x = 1 / 0", {}), ("y = (x <= 
 class P:
     id = "C06"
     rule = ("inputs: valid programs, one syntax error, a parser error followed by a later lexer error, here-documents (incl. with a failing parser), nested "
-            "command substitutions, truncated constructs; arithmetic expressions with several faults and assignments, invalid characters; generated "
+            "command substitutions, truncated constructs, lexer errors on a later line than the parser's, two errors inside the text of one alias; arithmetic expressions with several faults and assignments, invalid characters; generated "
             "programs and their mutants; each under N perturbation seeds (quick 12, thorough 48) x GOMAXPROCS {1,2,16}. Non-trivial = input with >= 3 "
             "tokens; distinct (input, GOMAXPROCS) pairs counted")
     assumptions = ["interleavings are forced by perturbation (yield / sleep) at the hook points, not enumerated exhaustively; exhaustive interleavings are covered by the protocol model's theorems",
@@ -49,6 +51,12 @@ class P:
         for src in faulty:
             for k in sorted(set(range(0, len(src) + 1, max(1, len(src) // 12)))):
                 pc.append("p\t%s\t%d\t%d" % (hx(src), k, nseeds))
+        # two errors at one position: inside the text of an alias every token has the position of the alias word
+        for al, srcs in (({"foo": "; '"}, ["foo", "foo a", "x; foo b c", "foo " + "a" * 3000]), ({"p": "a | | 'q", "r": ") \"x"}, ["p", "p z", "r", "b; r", "p\nr\n"]),
+                         ({"e": "echo ", "b": "| | ${x"}, ["e b", "e b c", "e e b"])):
+            alx = ",".join("%s=%s" % (hx(k), hx(v)) for k, v in al.items())
+            for src in srcs:
+                pc.append("a\t%s\t%s\t%d" % (hx(src), alx, nseeds))
         ec = ["e\t%s\t%s\t%d" % (hx(e), ",".join("%s=%s" % (hx(k), hx(v)) for k, v in vs.items()), nseeds) for e, vs in EVAL_CORPUS]
         for _ in range(60 if tier == "quick" else 600):
             toks = [rnd.choice(["x", "y", "1", "0", "(", ")", "+", "=", "/", "++", "$", "&&", "?", ":", "08", "abc", "-"]) for _ in range(rnd.randint(1, 9))]
